@@ -383,6 +383,7 @@ func skipOp(t *treefs.Node, op treefs.Op) bool {
 }
 
 func run(c *fw.Ctx) {
+	fsx.CheckSizes = true
 	contents, nspell, views, bufs := params(c.Thorough())
 	states := fsx.Reach(fsx.Mutators(contents), 2, 1)
 	alphabet := fsx.Alphabet(contents, nspell, views, false, bufs)
@@ -517,6 +518,7 @@ func treeFromFlat(flat map[string]string) *treefs.Node {
 }
 
 func replay(w json.RawMessage) (*fw.Violation, error) {
+	fsx.CheckSizes = true
 	var lw struct {
 		Live *liveWit `json:"live"`
 	}
